@@ -333,7 +333,8 @@ def check_catalogue(res, case):
             # user text ends up in error messages: braces / percent signs must not matter
             new_line = new_line + SPICES[(case.get("spice") or 0) % len(SPICES)]
         mlines = lines[:pos] + [new_line] + lines[pos:]
-        mtext = u"\n".join(mlines) + u"\n"
+        eol = (u"\n", u"\n", u"\r\n", u"\r")[(idx + (case.get("spice") or 0)) % 4]      # any line terminator
+        mtext = eol.join(mlines) + eol
         before = len(res.violations)
         probe(res, "feature", mtext, feat.get("lang"), expect_line=expect, fault=fault)
         count += 1
